@@ -372,8 +372,8 @@ func (cw *chunkWriter) writeHeader(p []byte) {
 	}
 
 	code := w.status
-	if code == bfe_http.StatusNotModified {
-		// Must not have body.
+	if code == bfe_http.StatusNotModified || (code >= 100 && code <= 199) {
+		// Must not have body (304, and 1xx such as 101 Switching Protocols).
 		// RFC 2616 section 10.3.5: "the response MUST NOT include other entity-headers"
 		for _, k := range []string{"Content-Type", "Content-Length", "Transfer-Encoding"} {
 			delHeader(k)
@@ -403,7 +403,7 @@ func (cw *chunkWriter) writeHeader(p []byte) {
 
 	if w.req.Method == "HEAD" || code == bfe_http.StatusNotModified {
 		// do nothing
-	} else if code == bfe_http.StatusNoContent {
+	} else if code == bfe_http.StatusNoContent || (code >= 100 && code <= 199) {
 		delHeader("Transfer-Encoding")
 	} else if hasCL {
 		delHeader("Transfer-Encoding")
